@@ -325,15 +325,14 @@ void ThreadPool::threadProc(ThreadToken thread_token)
             }
 
             item = popOneTask();    //! 从任务队列中取出优先级最高的任务
+            //! 在同一把锁内登记为正在执行，避免任务在"已取出未登记"期间对 getTaskStatus()/cancel() 不可见
+            if (item != nullptr)
+                d_->doing_tasks_token.insert(item->token);
         }
 
         //! 后面就是去执行任务，不需要再加锁了
         if (item != nullptr) {
             RECORD_SCOPE();
-            {
-                std::lock_guard<std::mutex> lg(d_->lock);
-                d_->doing_tasks_token.insert(item->token);
-            }
 
             LogDbg("thread %u pick task %u", thread_token.id(), item->token.id());
 
